@@ -3,7 +3,7 @@
    theory/ShippedFacts.v, which are decided by computation on the table. *)
 From Coq Require Import List Bool ZArith Lia Permutation Arith.
 Import ListNotations.
-From V Require Import PyBase NxModel NxFacts Engine_gen Shipped_gen ShippedFacts Graph_bridge GraphWF.
+From V Require Import PyBase NxModel NxFacts Engine_gen Shipped_gen ShippedFacts Graph_bridge GraphWF AlgebraTheory.
 
 Definition dummy_guard : unit -> unit -> res (bool * unit) := fun _ st => Ok (false, st).
 Definition dummy_trans : unit -> unit -> res (unit * unit) := fun d st => Ok (d, st).
@@ -161,4 +161,15 @@ Section Shipped.
           by (apply (wf_base_edges _ _ _ _ _ _ W1); split; [apply Hin; exact Hu|]; split; [apply Hin; exact Hv | exact Hr]).
         simpl in K. congruence.
   Qed.
+  (* the bundled table hypotheses hold for the regenerated shipped table *)
+  Lemma shipped_table_ok : table_ok X rk.
+  Proof.
+    split; [exact ty_eqb_spec|]. split.
+    { intros t r Hr. simpl in Hr. unfold shipped_relations in Hr. apply in_map_iff in Hr. destruct Hr as [d [Ed _]]. subst. apply rel_of_type. }
+    split; [exact Hsi|]. split; [intro t; simpl; apply ty_eqb_spec|]. split; [reflexivity|].
+    split; [exact sh_uniq|]. split; [exact sh_one | exact sh_rank].
+  Qed.
+
+  Lemma shipped_closed S : In tGeneric S -> parent_closed S = true -> closed X S.
+  Proof. intros HG Hpc. split; [exact HG|]. intros t Ht Hne. apply sh_parent; assumption. Qed.
 End Shipped.
